@@ -1,7 +1,7 @@
 (** C14 — every request that names one message (show, source, mark-seen, delete, web-UI message/html/source/attachment) of a mailbox in which the store has no such message is answered 404 and changes nothing *)
 From IV Require Import Base.Bytes Model.StoreSpec Model.Rest Proofs.Rest.
-Theorem missing_is_404 : forall mfa cfg st h name id num body mb,
+Theorem missing_is_404 : forall mfa cfg srcok st h name id num body mb,
   mfa name = Some mb -> spec_get cfg st mb id = NotExist -> addresses_message h body num = true ->
-  run_handler mfa cfg st h name id num body = (st, (S404, PNone)).
+  run_handler mfa cfg srcok st h name id num body = (st, (S404, PNone)).
 Proof. exact missing_is_404_handler. Qed.
 Print Assumptions missing_is_404.
